@@ -634,15 +634,18 @@ def _scratch() -> str:
 
 
 def observe(spec: Dict[str, Any], mode: str, variant: str = "run", fault: Optional[Dict[str, Any]] = None,
-            delays: Optional[Dict[str, float]] = None, timeout: float = 40.0, expect: Optional[Dict[str, Any]] = None) -> Dict[str, Any]:
-    """mode 'T' | 'M'; variant 'run' | 'stream' | 'stream:pause:<s>:<k>' (the consumer sleeps s seconds after item k) | 'abandon' |
+            delays: Optional[Dict[str, float]] = None, timeout: float = 40.0, expect: Optional[Dict[str, Any]] = None,
+            listener: Optional[Listener] = None, on_prepared: Any = None) -> Dict[str, Any]:
+    """listener: used instead of SlowListener(delays); on_prepared(uni, plan, steps): called once the plan is exported and the fault
+    is installed, before the run starts (harness/c08_mpmid.py forces a schedule with both).
+    mode 'T' | 'M'; variant 'run' | 'stream' | 'stream:pause:<s>:<k>' (the consumer sleeps s seconds after item k) | 'abandon' |
     'abandon:<k>' (close the stream after k items); fault {'kind': calc|upload|result|prepare|send|artifacts|finaldrop|
     workerdrop, 'sid': int}.  Returns the raw records, the plan and the outcome."""
     from mloda.user import ParallelizationMode
     logging.disable(logging.CRITICAL)
     install()
     threading.excepthook = lambda args: None
-    uni = Universe(spec, SlowListener(delays or {}))
+    uni = Universe(spec, listener if listener is not None else SlowListener(delays or {}))
     sess = uni.prepare()
     plan = export_plan(sess, uni)
     steps = list(sess.engine.execution_planner)
@@ -665,6 +668,8 @@ def observe(spec: Dict[str, Any], mode: str, variant: str = "run", fault: Option
         # a step that really cannot be pickled (a local function among its attributes; the run executes a deep copy of the plan,
         # functions are copied by reference): crash point CSend inside WorkerManager.send_command
         steps[fault["sid"]]._verif_unpicklable = lambda: None
+    if on_prepared is not None:
+        on_prepared(uni, plan, steps)
     modes = {ParallelizationMode.MULTIPROCESSING} if mode == "M" else {ParallelizationMode.THREADING}
     kw: Dict[str, Any] = {}
     keys_before: Set[str] = set()
